@@ -231,6 +231,7 @@ func (w *World) drawFaultMix(kinds ...string) {
 		}
 	}
 	w.Cfg.FaultBudget = w.Scn.Intn(7, "fault-budget")
+	w.Cfg.HotVerb = []string{"", "", "", "update-status", "patch", "update", "create", "delete"}[w.Scn.Intn(8, "hot-verb")]
 	if w.Cfg.FaultFree {
 		w.Cfg.FaultBudget = 0
 	}
